@@ -258,10 +258,15 @@ pub fn gen_case(t: &mut Tape) -> Case {
     // or the trait (with its `&self` receivers) is written in a macro and the entrait attribute is handed in by the caller
     // as plain tokens: the receiver and the attribute come from different hygiene contexts
     let attr_from_call = hygiene.is_none() && t.chance(1, 8);
+    // or the *type* of the exclusive receiver is handed in (`self: $rt` with `$rt:ty`): it arrives inside an invisible group
+    let recv_fragment = mut_method && hygiene.is_none() && !attr_from_call && t.chance(1, 3);
     let mut trait_methods = methods.clone();
     if let Some((mi, _, j)) = hygiene {
         trait_methods[mi].params[j].name = "$p".to_string();
         src.push_str("macro_rules! __mk_tr { ($p:ident) => {\n");
+    }
+    if recv_fragment {
+        src.push_str("macro_rules! __mk_tr { ($rt:ty) => {\n");
     }
     if attr_from_call {
         src.push_str(&format!("macro_rules! __mk_tr {{ ($($a:tt)*) => {{\n$($a)*\n{at}pub trait Tr{tg}{sup_src}{tw} {{\n"));
@@ -288,8 +293,15 @@ pub fn gen_case(t: &mut Tape) -> Case {
     src.push_str(borrow_decl);
     src.push_str(phantom_decl);
     src.push_str(selfless_decl);
-    src.push_str(mut_decl);
+    if recv_fragment {
+        src.push_str(&mut_decl.replace("&mut self", "self: $rt"));
+    } else {
+        src.push_str(mut_decl);
+    }
     src.push_str("}\n");
+    if recv_fragment {
+        src.push_str("} }\n__mk_tr!(&mut Self);\n");
+    }
     if let Some((mi, i, _)) = hygiene {
         src.push_str(&format!("}} }}\n__mk_tr!({});\n", methods[mi].params[i].name));
     }
@@ -513,6 +525,9 @@ pub fn gen_case(t: &mut Tape) -> Case {
     }
     if selfless_impl_named {
         classes.push("associated_fn_whose_first_parameter_is_named___impl");
+    }
+    if recv_fragment {
+        classes.push("receiver_type_from_a_macro_rules_ty_fragment");
     }
     if dflt_overridden {
         classes.push("defaulted_method_overridden_by_the_provider");
